@@ -144,6 +144,7 @@ class Interval(Duration, Generic[_T]):
                         start.second,
                         start.microsecond,
                         tzinfo=start.tzinfo,
+                        fold=start.fold,
                     ),
                 )
             else:
@@ -170,6 +171,7 @@ class Interval(Duration, Generic[_T]):
                         end.second,
                         end.microsecond,
                         tzinfo=end.tzinfo,
+                        fold=end.fold,
                     ),
                 )
             else:
